@@ -45,6 +45,44 @@ func runC04(p *load.Program, r *core.Report) {
 	c04Remove(a, r)
 	c04Index(a, r)
 	c04SpawnLinks(a, r)
+	c04ExitSignal(a, r)
+}
+
+// c04ExitSignal: L8 — what a linked process receives is an exit signal: the helper every link
+// fan-out uses builds a mailbox message of type Exit (anything else is dispatched to the ordinary
+// message handler and the linked process does not terminate).
+func c04ExitSignal(a *Anchors, r *core.Report) {
+	rule := "C04.L8 exit-signal-type"
+	r.Floor(rule, 1)
+	f := a.P.Func("node", a.NodeT.Obj().Name(), "sendExitMessage")
+	key := "C04.L8|sendExitMessage"
+	inst := "the message delivered to a link consumer has mailbox type Exit"
+	if f == nil {
+		r.Unk(rule, key, "", "", inst, "sendExitMessage not found")
+		return
+	}
+	tnames := enumConsts(a.P.Named("gen", "MailboxMessageType"))
+	var got []string
+	eachInstr(f, func(in ssa.Instruction) {
+		st, ok := in.(*ssa.Store)
+		if !ok {
+			return
+		}
+		own, fl := fieldOwner(st.Addr)
+		if own == nil || own.Obj().Name() != "MailboxMessage" || fl != "Type" {
+			return
+		}
+		if c, okc := constInt(st.Val); okc {
+			got = append(got, tnames[c])
+		} else {
+			got = append(got, "non-constant")
+		}
+	})
+	if len(got) == 1 && got[0] == "MailboxMessageTypeExit" {
+		r.OK(rule, key, fname(f), a.P.Pos(f.Pos()), inst, "Type = MailboxMessageTypeExit")
+	} else {
+		r.Bad(rule, key, fname(f), a.P.Pos(f.Pos()), inst, fmt.Sprintf("Type stores: %v — a linked process gets an ordinary message instead of an exit signal", got))
+	}
 }
 
 // c04SpawnLinks: L6 — the LinkChild option of a spawn creates the parent->child link after the
